@@ -44,12 +44,16 @@ class S:
             d.vals[t] = v
         return d
 
-    def term(self, name, names, support=None):
+    def term(self, name, names, support=None, allow_empty=True):
         """A PolyhedralTerm satisfying the class invariant (stored coefficients are non-zero), built directly.
 
         support: None = every subset of `names` is explored (nondeterministic choice), or a list of names."""
         if support is None:
             support = [n for n in names if self.ctx.choose(2, "%s.has_%s" % (name, n)) == 0]
+            if not support and not allow_empty:
+                from pyvc.core import PathInfeasible
+
+                raise PathInfeasible("precondition: every term mentions a variable")
         t = Obj(self.PT, self.ctx)
         pairs = []
         for n in support:
